@@ -7,7 +7,11 @@ OUT="$1"; SAN="$2"; WHAT="$3"
 V=$(cd "$(dirname "$0")/.." && pwd)
 REPO=${VERIF_REPO:-/repo}
 mkdir -p "$OUT"
-make -s -C $V harness >"$OUT/harness.log" 2>&1 || { cat "$OUT/harness.log"; exit 2; }
+# harness objects: built here unless the caller points at a frozen copy (scratch runs against other trees)
+if [ -n "$VERIF_HARNESS" ]; then HARNESS="$VERIF_HARNESS"; else
+  HARNESS=$V/build/harness
+  make -s -C $V harness >"$OUT/harness.log" 2>&1 || { cat "$OUT/harness.log"; exit 2; }
+fi
 if [ "$SAN" = tsan ]; then SANFLAGS="-fsanitize=thread"; DEF="-DSIM_TSAN=1"; else SANFLAGS="-fsanitize=address"; DEF=""; fi
 CFLAGS="-O1 -g -std=gnu99 -I$REPO/src -U_FORTIFY_SOURCE -D_FORTIFY_SOURCE=0 -fno-omit-frame-pointer $SANFLAGS -fsanitize-coverage=trace-pc-guard -w"
 pids=""
@@ -30,5 +34,5 @@ if [ $fail != 0 ]; then cat "$OUT"/*.log | head -50; echo "BUILD-FAILED: /repo d
 WRAP="-Wl,--wrap=malloc,--wrap=calloc,--wrap=free,--wrap=mmap,--wrap=mremap,--wrap=munmap,--wrap=open,--wrap=fstat,--wrap=close,--wrap=read,--wrap=write,--wrap=fopen,--wrap=fwrite,--wrap=fclose,--wrap=exit,--wrap=time,--wrap=strtok,--wrap=strtok_r,--wrap=strncpy,--wrap=strcpy,--wrap=strcat,--wrap=strstr,--wrap=strchr,--wrap=strrchr,--wrap=strcmp,--wrap=strncmp,--wrap=strcasecmp,--wrap=strncasecmp,--wrap=strlen,--wrap=strtoul,--wrap=strtol,--wrap=strtoull,--wrap=atoi,--wrap=rand,--wrap=strerror,--wrap=getenv,--wrap=localtime,--wrap=gmtime,--wrap=setlocale,--wrap=memchr"
 OBJS="$OUT/lib_*.o $OUT/libcall.o"
 [ "$WHAT" = cli ] && OBJS="$OBJS $OUT/cli_asmline.o"
-clang++ $SANFLAGS $WRAP $V/build/harness/$SAN/*.o $OBJS -lpthread -o "$OUT/alsim" 2>"$OUT/link.log" || { cat "$OUT/link.log" | head -40; echo "BUILD-FAILED: link"; exit 2; }
+clang++ $SANFLAGS $WRAP $HARNESS/$SAN/*.o $OBJS -lpthread -o "$OUT/alsim" 2>"$OUT/link.log" || { cat "$OUT/link.log" | head -40; echo "BUILD-FAILED: link"; exit 2; }
 echo "built $OUT/alsim"
